@@ -933,6 +933,15 @@ def _nested_probes():
                 out.append((o1, "gt", t, t, t, a, b, 0))
                 out.append((o1, "idiv", t, t, t, a, b, 2))
                 out.append((o1, "lt", t, t, "uint8" if TYPES_SIGNED.get(t, True) else "int8", a, b, 200 if TYPES_SIGNED.get(t, True) else -1))
+    # mixed signedness /// and %%% on types narrower than int: ((T)l / (T)r) is not cast back (open finding)
+    for (t1, t2, a, b) in (("int8", "uint8", -128, 255), ("int16", "uint16", -32768, 65535), ("int8", "uint8", -7, 2), ("uint8", "int8", 200, -1)):
+        for o1 in ("tdiv", "tmod"):
+            out.append((o1, "gt", t1, t2, "int8", a, b, 0))
+            out.append((o1, "idiv", t1, t2, "int8", a, b, 2))
+    # unary-free controls on wide types and bitwise / shift inner operators
+    for (o1, t, a, b) in (("bor", "uint8", 200, 100), ("bxor", "int8", -128, 127), ("shl", "uint8", 200, 1), ("idiv", "int8", -128, -1), ("tdiv", "int8", -128, -1)):
+        out.append((o1, "gt", t, t, t, a, b, 0))
+        out.append((o1, "add", t, t, t, a, b, 100))
     return out
 
 
@@ -1014,7 +1023,7 @@ def extra_probe_stream(ctx, mdriver, violation, stats):
                           {"case": text, "line": lines[k], "model": mo}, failing=False, kind="correspondence")
             if n != st:
                 stats["nested_divergences"] = stats.get("nested_divergences", 0) + 1
-                violation("nested:" + text, "C02 `%s`: consumed directly by the outer operator the result is %s %s, stored in a variable of its type first it is %s %s (C computes the inner operator in int and the emitter writes no cast)" %
+                violation("nested:" + text, "C02 `%s`: consumed directly by the outer operator the result is %s %s, stored in a variable of its type first it is %s %s (the inner operator is computed in C int and not cast back to its type)" %
                           (text, n[0], n[1], st[0], st[1]), {"case": text, "line": lines[k], "replay": "see harness of checks/C02.py:nested_text"})
     # ---- untyped literals
     src = os.path.join(work, "untyped.nelua")
